@@ -198,6 +198,7 @@ pub struct RunStats {
     pub fixed_tail_touched: u64,
     pub owned_grows: u64,
     pub alloc_fault_fired: u64,
+    pub alloc_fault_recovered: u64,
     pub double_frees: u64,
 }
 
@@ -652,12 +653,19 @@ fn exec_owned(t: &Trace, out: &mut Outcome) {
                 let fault_fired = simcore::faultalloc::fired() != fired_before;
                 let _ = write!(out.log, "{} w{} ", step, c.len());
                 if fault_fired {
-                    // the allocation failed and the process is still alive: the writer chose to
-                    // report the failure, so from here on the sticky-flag rules apply
+                    // the allocation failed and the process is still alive. The writer may report the
+                    // failure (sticky-flag rules apply from here on) or recover, e.g. by retrying with a
+                    // smaller request (then the chunk must be there in full): both are legitimate, so the
+                    // model follows the flag and every other invariant keeps being checked against it
                     out.stats.alloc_fault_fired += 1;
                     remaining = -1;
-                    model.failed = true;
-                    let _ = write!(out.log, "allocation-failed ");
+                    model.failed = unsafe { (*m).grow_failed };
+                    if model.failed {
+                        let _ = write!(out.log, "allocation-failed ");
+                    } else {
+                        out.stats.alloc_fault_recovered += 1;
+                        let _ = write!(out.log, "allocation-failed-recovered ");
+                    }
                 }
                 if let Err(e) = res {
                     viol = Some(Violation { oracle: "PANIC", step, detail: e });
